@@ -200,11 +200,17 @@ def main(argv):
                     stats["quantities_compared"] += 1
                     exp = want * sfac ** k
                     sc = max(abs(exp), abs(got), 1e-300)
+                    if name.startswith("field"):
+                        # a field is a difference quotient of potentials that are converged to ~1e-7 of THEIR scale: a point where the
+                        # field is weak is compared against the field scale of the problem (1 % of the strongest probed field)
+                        sc = max(sc, 1e-2 * field_scale * sfac ** k)
                     dev = abs(got - exp) / sc
                     if abs(exp) < 1e-12 * ref_scale.get(name.split("[")[0], 1.0) and abs(got) < 1e-12 * ref_scale.get(name.split("[")[0], 1.0) * sfac ** k:
                         return
                     stats["worst_relative_deviation"] = max(stats["worst_relative_deviation"], dev)
-                    if dev > 1e-6:
+                    # potentials are reproduced to 1e-6 of their scale (the solvers' convergence); a field is their difference quotient over
+                    # an element (L/h ~ 30-100 times less accurate)
+                    if dev > (1e-5 if name.startswith("field") else 1e-6):
                         ck.violation("nan-solution:m:axi:microns" if (kind == "m" and axi is True and unit == "microns") else
                                      "scaling:%s:%s:%s" % (kind, mode, name.split("[")[0]),
                                      "%s in %s is %.9g, the scaling law (x s^%s, s=%g) from the metres run gives %.9g" % (name, unit, got, k, sfac, exp),
@@ -221,6 +227,9 @@ def main(argv):
                                  dict(physics=kind, mode=mode, unit=unit, files=r["run"].files()))
                     continue
                 po, pr = r["post"], ref["post"]
+                fidx0 = (3, 4) if kind in "eh" else (1, 2)
+                field_scale = max([math.hypot(abs(pr["pt%d" % i][fidx0[0]]), abs(pr["pt%d" % i][fidx0[1]])) for i in range(len(probe))
+                                   if pr.get("pt%d" % i) and all(v is not None for v in pr["pt%d" % i][:5])] + [0.0])
                 for i in range(len(probe)):
                     a_, b_ = po.get("pt%d" % i), pr.get("pt%d" % i)
                     if not a_ or not b_ or any(v is None for v in a_[:5]) or any(v is None for v in b_[:5]):
